@@ -21,7 +21,7 @@ def run(ctx):
     camp = codec.Campaign(ctx, types, specs, with_py=True, batch=ctx.pick(40, 60))
     camp.build()
     codec.report_gen_failures(camp, ctx, PROP)
-    vcases = codec.value_cases(camp, ctx.rng, ctx.pick(2, 6), 0)
+    vcases = codec.value_cases(camp, ctx.rng, ctx.pick(1, 4), 0, n_boundary=ctx.pick(3, 8))
     out = camp.ser_events(vcases)
     valid = {}
     for c in vcases:
